@@ -412,8 +412,8 @@ struct V : RecursiveASTVisitor<V> {
   ASTContext &C;
   Ids ids;
   Ex ex;
-  json::Array funcs, statics, classes;
-  std::set<std::string> seenStatic, seenFunc, seenClass;
+  json::Array funcs, statics, classes, enums;
+  std::set<std::string> seenStatic, seenFunc, seenClass, seenEnum;
   V(ASTContext &C) : C(C), ex(C, ids) {}
   bool shouldVisitTemplateInstantiations() const { return true; }
   bool shouldVisitImplicitCode() const { return false; }
@@ -456,8 +456,31 @@ struct V : RecursiveASTVisitor<V> {
       } else {
         o["init"] = ex.J(D->getInit());
       }
+      if (BT->isRecordType() && !o.get("init"))
+        o["init"] = ex.J(D->getInit());  // string-literal members of struct tables
     }
     statics.push_back(std::move(o));
+    return true;
+  }
+
+  bool VisitEnumDecl(EnumDecl *D) {
+    if (!D->isThisDeclarationADefinition() || D->isDependentContext()) return true;
+    std::string f = ex.file(D->getLocation());
+    if (!underRoots(f)) return true;
+    std::string key = ex.qname(D) + "@" + ex.loc(D->getLocation());
+    if (!seenEnum.insert(key).second) return true;
+    json::Object o;
+    o["qn"] = ex.qname(D);
+    o["loc"] = ex.loc(D->getLocation());
+    json::Array vs;
+    for (auto *E : D->enumerators()) {
+      json::Object eo;
+      eo["name"] = E->getNameAsString();
+      eo["v"] = toString(E->getInitVal(), 10);
+      vs.push_back(std::move(eo));
+    }
+    o["values"] = std::move(vs);
+    enums.push_back(std::move(o));
     return true;
   }
 
@@ -602,6 +625,28 @@ struct V : RecursiveASTVisitor<V> {
           bo["case"] = "default";
       }
       const Stmt *lastCond = B->getLastCondition();
+      const Stmt *termCond = B->getTerminatorCondition(true);
+      if (lastCond && termCond && lastCond != termCond) {
+        // getLastCondition() blindly returns the last element; when the
+        // condition is a constant that the builder did not append (if
+        // constexpr), that element is an unrelated statement. Accept it only if
+        // it is the terminator condition or one of its sub-expressions.
+        bool inside = false;
+        for (const Stmt *P = lastCond; P; P = PM.getParent(P))
+          if (P == termCond) { inside = true; break; }
+        if (!inside) {
+          const Stmt *P = termCond;
+          // wrappers clang looks through when appending the condition
+          while (true) {
+            if (auto *x = dyn_cast<ConstantExpr>(P)) P = x->getSubExpr();
+            else if (auto *x = dyn_cast<ExprWithCleanups>(P)) P = x->getSubExpr();
+            else if (auto *x = dyn_cast<ParenExpr>(P)) P = x->getSubExpr();
+            else break;
+          }
+          if (P == lastCond) inside = true;
+        }
+        if (!inside) lastCond = nullptr;
+      }
       std::vector<const Stmt *> els;
       std::vector<json::Value> extra;
       std::vector<std::pair<size_t, json::Value>> interleaved;
@@ -660,6 +705,7 @@ struct V : RecursiveASTVisitor<V> {
         t["cls"] = T->getStmtClassName();
         t["loc"] = ex.loc(T->getBeginLoc());
         if (lastCond) t["cond"] = ex.J(lastCond);
+        else if (termCond && B->succ_size() == 2) { t["cond"] = ex.J(termCond); t["cond_not_in_block"] = true; }
         if (auto *IS = dyn_cast<IfStmt>(T)) t["constexpr"] = IS->isConstexpr();
         bo["term"] = std::move(t);
       }
@@ -693,6 +739,7 @@ struct Cons : ASTConsumer {
     top["functions"] = std::move(v.funcs);
     top["statics"] = std::move(v.statics);
     top["classes"] = std::move(v.classes);
+    top["enums"] = std::move(v.enums);
     top["errors"] = C.getDiagnostics().hasErrorOccurred();
     llvm::outs() << json::Value(std::move(top)) << "\n";
   }
